@@ -6,7 +6,9 @@ S=/verif/seeded/$NAME
 cd /repo || exit 2
 if ! git diff --quiet; then echo "/repo has uncommitted changes"; exit 2; fi
 git apply $S/patch.diff || { echo "patch does not apply to /repo HEAD"; exit 2; }
-trap 'git -C /repo checkout -- . ; echo "(patch undone)"' EXIT
+# the evidence files belong to runs on the unchanged tree: keep them out of reach of the seeded runs
+EVB=$(mktemp -d /tmp/evidence_backup.XXXXXX); cp -a /verif/evidence/. $EVB/
+trap 'git -C /repo checkout -- . ; rm -rf /verif/evidence; mkdir -p /verif/evidence; cp -a $EVB/. /verif/evidence/; rm -rf $EVB; echo "(patch undone, evidence restored)"' EXIT
 cd /verif
 RES=""
 for id in "$@"; do
